@@ -1,4 +1,6 @@
 #[cfg(feature = "std")]
+mod block;
+#[cfg(feature = "std")]
 mod blockval;
 mod hooks;
 mod link;
@@ -37,6 +39,20 @@ fn main() {
         ("replay", "exchange") => views::replay_exchange(&args),
         ("rec", "views") => views::rec_views(&args),
         ("rec", "response") => views::rec_response(&args),
+        #[cfg(feature = "std")]
+        ("rec", "block2") => block::rec_block2(&args),
+        #[cfg(feature = "std")]
+        ("rec", "block1") => block::rec_block1(&args),
+        #[cfg(feature = "std")]
+        ("rec", "budget") => block::rec_budget(&args),
+        #[cfg(feature = "std")]
+        ("rec", "hostile") => block::rec_hostile(&args),
+        #[cfg(feature = "std")]
+        ("rec", "isolation") => block::rec_isolation(&args),
+        #[cfg(feature = "std")]
+        ("rec", "expiry") => block::rec_expiry(&args),
+        #[cfg(feature = "std")]
+        ("rec", "script") => block::rec_script(&args),
         ("rec", "wire-bytes") => wire::rec_wire_bytes(&args),
         ("rec", "wire-build") => wire::rec_wire_build(&args),
         ("rec", "wire-limit") => wire::rec_wire_limit(&args),
